@@ -282,6 +282,11 @@ def run(chk):
     rdw = tlc.mc("NetDispatchWalk", "NetDispatchWalk" if chk.tier == "quick" else "NetDispatchWalk_all", timeout=3000)
     chk.add_tlc(rdw, "NetDispatch composed hop by hop over every ordered pair of nodes: queued exactly once at the destination, "
                      "unchanged, no bystander, one NETWORK_ACK iff owed, <= 16 transmissions")
+    # the L2 node algorithm followed step by step on real nodes (TraceNetNode.tla; the model itself is checked in C13)
+    from checks import netnode
+    if chk.tier != "quick":
+        chk.add_tlc(tlc.mc("NetNode", "NetNode_c05", timeout=1800), "NetNode.tla, loss-free sequential writes: delivered exactly once, True")
+    netnode.conform(chk, chk.tier == "quick")
     chunks = build(chk)
     with ProcessPoolExecutor(16) as ex:
         traces = list(ex.map(run_chunk, chunks))
